@@ -37,6 +37,8 @@ DIRS = ["up", "down", "left", "right"]
 
 
 # ---------------------------------------------------- implementation side ---
+OPAQUE_MODULES = {"logging", "re", "functools", "typing", "abc", "_thread", "threading", "weakref", "warnings"}
+
 def _fp(x, depth=0, seen=None):
     """structural fingerprint of a value (dicts, lists, sets, tuples, plain
     scalars, instances via their __dict__; callables by qualified name)"""
@@ -65,6 +67,14 @@ def _fp(x, depth=0, seen=None):
         return "<class %s %s>" % (x.__qualname__, _fp(attrs, depth + 1, seen))
     if isinstance(x, (types.BuiltinFunctionType, types.MethodType, types.ModuleType)):
         return "<%s>" % getattr(x, "__qualname__", getattr(x, "__name__", "callable"))
+    if type(x).__module__.split(".")[0] in OPAQUE_MODULES:
+        # infrastructure objects (a module logger, a compiled pattern, an lru_cache wrapper, a lock):
+        # their internals change with use (Logger._cache is filled by the first debug() call) and
+        # hold none of the package's own state
+        return "<%s.%s>" % (type(x).__module__, type(x).__qualname__)
+    import collections
+    if isinstance(x, collections.deque):
+        return "[" + ",".join(_fp(v, depth + 1, seen) for v in x) + "]"
     d = getattr(x, "__dict__", None)
     if d is not None:
         return "<%s %s>" % (type(x).__name__, _fp(d, depth + 1, seen))
